@@ -268,7 +268,9 @@ class Gen:
                         n_rules = 0  # empty rule set
                     for j in range(n_rules):
                         if rng.random() < 0.12:
-                            vn = 'w%s%d' % (nm.lower(), j)
+                            # half of the time the SAME local name is used in every rule set (rule-set scoping: each `let` is
+                            # local to its own rule set, so equal names in different rule sets must not clash or leak)
+                            vn = ('lw%d' % (j % 2)) if rng.random() < 0.5 and ('lw%d' % (j % 2)) not in la else 'w%s%d' % (nm.lower(), j)
                             if rng.random() < 0.5:
                                 rs_items.append(('let', vn, self.cls(1, lc)))
                                 lc.append(vn)
@@ -430,6 +432,23 @@ def shape_defs(rng, builtins):
                  rule('simple', cat(chr_(a), chr_(b)), rng.choice(ctxs)), rule('simple', cat(ANY, ANY, ANY), rng.choice(ctxs))]
         rng.shuffle(items)
         out.append({'name': 'ShCtx%d' % i, 'items': [('errortype',)] + items})
+    # rule-set scoping (C16/C12/C04): the SAME local name bound to different regexes in different rule sets, used in rules and in
+    # syntactically identical right contexts; a top-level binding visible everywhere
+    for i in range(4):
+        a, b, c, t = rng.sample(LETTERS, 4)
+        lo, hi = min(a, b, c), max(a, b, c)
+        body = ('plus', set_((lo, hi)))
+        sets = []
+        for j, bound in enumerate([chr_(a), chr_(b), str_(chr(c) + chr(a)), set_(a, c)][: 2 + i % 3]):
+            nm = 'Init' if j == 0 else 'R%d' % j
+            rs = [('let', 'x', bound), rule('infallible', ('var', 'x')), rule('simple', body, ('var', 'x')),
+                  rule('infallible', body), rule('simple', ('var', 'tv')), rule('simple', ANY)]
+            if i % 2:
+                rs = [rs[3], rs[0], rs[2], rs[1], rs[4], rs[5]]   # a rule before the `let`, the context rule before the plain one
+            sets.append(('ruleset', nm, rs))
+        d = {'name': 'ShScope%d' % i, 'items': [('errortype',), ('let', 'tv', chr_(t))] + sets}
+        if well_formed(d, builtins):
+            out.append(d)
     # classes touching 0, the surrogate gap, char::MAX (C11, C12)
     cls_exprs = [('diff', ANY, set_((0xD000, 0xE000))), ('diff', ANY, chr_(0)), ('diff', ANY, chr_(0x10FFFF)),
                  ('diff', set_((0, 0x10FFFF)), set_((1, 0xD7FF), (0xE000, 0x10FFFE))),
